@@ -12,7 +12,7 @@ import shutil
 import numpy as np
 
 from .. import graphs, serio, simstore
-from ..core import Rng, Violation, bump, new_result, plan_digest
+from ..core import HarnessError, Rng, Violation, bump, new_result, plan_digest
 
 ID = "C01"
 LEVEL = "exploration"
@@ -49,7 +49,7 @@ EXPECTED_PROBES = ["multi_chunk_array_written", "zero_dim_array", "empty_array_o
                    "other_process_restart", "listing_order_nonidentity", "completion_order_nonfifo",
                    "kind_tensor", "kind_module", "kind_obj_in_container", "kind_npscalar",
                    "kind_hybrid_module", "dot_prefixed_name", "kind_qvector", "kind_qdataset",
-                   "one_object_under_two_names", "unusual_path_shape", "bulk_str", "bulk_dict",
+                   "one_object_under_two_names", "unusual_path_shape", "other_interpreter_restart", "bulk_str", "bulk_dict",
                    "bulk_intlist", "bulk_attrs"]
 
 
@@ -103,7 +103,10 @@ def gen(rng: Rng, tier, i):
         cfgs.append({**t, "mode": mode, "pre": pre, "level": r.pick([None] + list(range(10))),
                      "path_kind": r.pick(["str", "Path", "str", "Path", "rel", "relPath"])})
     return {"graph": g, "cfgs": cfgs, "env": serio.gen_env(rng.fork("env")), "alias": alias,
-            "other_process": rng.chance(0.08) and alias is None}
+            "other_process": rng.chance(0.08) and alias is None,
+            # load in a FRESH interpreter with another string-hash salt (a real restart: nothing the
+            # saving process computed - hash orders, caches, interned objects - survives)
+            "other_interpreter": rng.fork("interp").pick([None] * 60 + [1, 424242])}
 
 
 def poison_freed_memory():
@@ -223,6 +226,15 @@ def run(plan):
                         res["violations"].append(Violation(
                             "roundtrip_mismatch_other_process",
                             f"{tag}: {d_other[:3]}", "roundtrip_mismatch:" + d_other[0][0]))
+                if plan.get("other_interpreter") and cfg is plan["cfgs"][0]:
+                    bump(res["probes"], "other_interpreter_restart")
+                    d_oi = _other_interpreter_diff(plan, tgt)
+                    if d_oi:
+                        res["violations"].append(Violation(
+                            "roundtrip_mismatch_other_interpreter",
+                            f"{tag}: loaded in a fresh interpreter (PYTHONHASHSEED="
+                            f"{plan['other_interpreter']}): {d_oi[:3]}",
+                            "roundtrip_mismatch_other_interpreter:" + str(d_oi[0][0])))
                 got, exc, _ = E.load(tgt)
                 if exc is not None:
                     res["violations"].append(Violation(
@@ -283,6 +295,34 @@ def run(plan):
     res["digest"] += ":" + hashlib.blake2b(
         repr(sorted((v["oracle"], v["sig"]) for v in uniq)).encode(), digest_size=4).hexdigest()
     return res
+
+
+def child_load_and_diff(req):
+    """Executed in a fresh interpreter (python -m qsim.c01child)."""
+    plan = req["plan"]
+    env2 = dict(plan["env"], sched_seed=plan["env"].get("sched_seed", 0) + 2)
+    with serio.SerEnv(env2) as E:
+        got, exc, _ = E.load_copy(req["path"])
+        if exc is not None:
+            return [["load_raised", "$", repr(exc)]]
+        return [list(x) for x in graphs.equal(_build(plan), got)]
+
+
+def _other_interpreter_diff(plan, path):
+    import subprocess
+    import sys
+
+    from .. import core
+
+    env = dict(os.environ, PYTHONHASHSEED=str(plan["other_interpreter"]), VERIF_REPO=core.REPO,
+               PYTHONPATH=core.VERIF_DIR + os.pathsep + os.environ.get("PYTHONPATH", ""))
+    req = {"plan": {k: v for k, v in plan.items() if k != "run_seed"}, "path": path}
+    out = subprocess.run([sys.executable, "-m", "qsim.c01child"], input=json.dumps(req), text=True,
+                         capture_output=True, env=env, cwd=core.VERIF_DIR, timeout=600)
+    lines = [ln for ln in out.stdout.splitlines() if ln.startswith("RESULT ")]
+    if out.returncode != 0 or not lines:
+        raise HarnessError(f"other-interpreter load failed (rc {out.returncode}): {out.stderr[-400:]}")
+    return json.loads(lines[-1][7:])
 
 
 def _exc_class(exc):
@@ -413,6 +453,10 @@ def shrink(plan):
     if plan.get("alias"):
         p = copy.deepcopy(plan)
         p["alias"] = None
+        yield p
+    if plan.get("other_interpreter"):
+        p = copy.deepcopy(plan)
+        p["other_interpreter"] = None
         yield p
     for i, c in enumerate(plan["cfgs"]):
         if c["name"] not in ("o", "o.zip"):
